@@ -46,11 +46,8 @@ def classify(seq, i, impl, spec):
 
 def check(run):
     run.level = "proof"
-    try:
-        from checks import _graph_theorems
-        run.prove(_graph_theorems.C20)
-    except ImportError:
-        run.note("proof module for C20 not present yet")
+    from checks import _graph_theorems
+    run.prove(_graph_theorems.C20)
     rng = run.rng
     quick = run.tier == "quick"
     zkh = run.harness()
